@@ -39,7 +39,7 @@ def run_bx(c, repo, workdir, tier):
     fcntl.flock(lock, fcntl.LOCK_EX)
     dest = os.path.join(SCRATCH, "bx-repo")
     try:
-        sync_repo(repo, dest)
+        sync_repo(repo, dest, os.path.join(CACHE, "bx-target", "shared"))
         attach = os.path.join(dest, c["crate_dir"], c["attach"])
         if not os.path.exists(attach):
             comp["undecided"] = f"attach point {c['attach']} missing (lost anchor)"
